@@ -391,3 +391,85 @@ def growth_small(a: List[int], b: List[int], s: str, k: int) -> None:
             if isinstance(x, (list, dict)):
                 assert len(x) <= bound, "route returns a container longer than its longest operand without enforcing the cap"
     hlib.done()
+
+
+# ---- two or three real containers handed to ANY builtin (rarely used multi-argument forms) -----------------------------
+POOL_N = [0, 1, 6000, 9999, 10000]
+
+
+def pair_growth(fi: int, n1i: int, n2i: int, kind: int) -> None:
+    """
+    pre: 0 <= n1i < 5 and 0 <= n2i < 5 and 0 <= kind <= 2
+    post: True
+    """
+    hlib.enter(locals())
+    names = sorted(k for k in FUNCTIONS if k not in ('rand', 'shuffle', 'match', 'match_groups', 'match_all', 'pretty'))
+    hlib.assume(0 <= fi < len(names))
+    fi, n1i, n2i, kind = hlib.concrete(fi, 0, len(names) - 1), hlib.concrete(n1i, 0, 4), hlib.concrete(n2i, 0, 4), hlib.concrete(kind, 0, 2)
+    name = names[fi]
+    bad = None
+    with hlib.native():
+        n1, n2 = POOL_N[n1i], POOL_N[n2i]
+        if kind == 1:
+            args = [list(range(n1)), list(range(n2))]
+        else:
+            args = [{('a%d' % i): i for i in range(n1)}, {('b%d' % i): i for i in range(n2)}]
+            if kind == 2:
+                args.append({('c%d' % i): i for i in range(n2)})
+        before = [len(x) for x in args]
+        try:
+            r = FUNCTIONS[name](*args)
+        except Exception:
+            r = None
+        bound = max([CAP] + before)
+        if isinstance(r, (list, dict)) and len(r) > bound:
+            bad = "%s(%s) returned a %s of %d elements (bound %d)" % (name, ', '.join('%s of %d' % (type(x).__name__, b) for x, b in zip(args, before)), type(r).__name__, len(r), bound)
+        for x, b in zip(args, before):
+            if len(x) > max(CAP, b):
+                bad = "%s grew an argument from %d to %d elements" % (name, b, len(x))
+    assert bad is None, bad
+    hlib.done()
+
+
+from sqv.harness import txt as _t          # (its parsers are constructed at import, outside any explored path)
+
+
+# ---- the cap does not depend on earlier evaluations ---------------------------------------------------------------------
+FIRST = ["len(big)", "big[0] + nosuch", "big.push(1)", "x = big\nx | map(v => v) | len", "big + big", "1 +"]
+SECOND = [("arr.push(1)", 'arr'), ("insert(arr, 0, 1)", 'arr'), ("arr += [1]\narr", 'arr'), ("y = arr + [1]\ny", 'y'), ("d['new'] = 1", 'd'),
+          ("arr[0] = [1]", 'arr')]
+
+
+def history_cap(n1i: int, fi: int, si: int, same_parser: bool) -> None:
+    """
+    pre: 0 <= n1i < 4 and 0 <= fi < 6 and 0 <= si < 6
+    post: True
+    """
+    # an earlier evaluation (succeeding or failing) over host containers of any length leaves the cap where it was
+    hlib.enter(locals())
+    n1i, fi, si = hlib.concrete(n1i, 0, 3), hlib.concrete(fi, 0, 5), hlib.concrete(si, 0, 5)
+    same_parser = True if same_parser else False
+    bad = None
+    with hlib.native():
+        n1 = [0, 10000, 10001, 25000][n1i]
+        p1 = _t.PARSER
+        p2 = p1 if same_parser else _t.CACHING
+        try:
+            p1.eval(FIRST[fi], {'big': list(range(n1)), 'bd': {i: i for i in range(n1)}}, max_ops_evaluated=10**6)
+        except Exception:
+            pass
+        arr, d = list(range(CAP)), {('k%d' % i): i for i in range(CAP)}
+        nm = {'arr': arr, 'd': d}
+        text, watch = SECOND[si]
+        try:
+            p2.eval(text, nm, max_ops_evaluated=10**6)
+            failed = None
+        except Exception as e:
+            failed = e
+        grown = {k: len(v) for k, v in nm.items() if isinstance(v, (list, dict)) and len(v) > CAP}
+        if grown:
+            bad = "after eval(%r) with a %d-element host list, %r made %s longer than the cap" % (FIRST[fi], n1, text, grown)
+        elif si != 5 and not isinstance(failed, ParserError):
+            bad = "after eval(%r) with a %d-element host list, %r on a full container did not fail with ParserError (%r)" % (FIRST[fi], n1, text, failed)
+    assert bad is None, bad
+    hlib.done()
